@@ -75,6 +75,33 @@ func runSign(seed uint64, n int, outDir string, replay string) {
 			o.Violate("c03-signer-not-recovered", fmt.Sprintf("Sender of a freshly signed tx: %v %v, want %x", orig, err, from.Bytes()))
 			continue
 		}
+		// the same transaction seen by nodes of other chains of the network (same chain id, other location): the sender's
+		// bytes are the same everywhere, but whether it is an account of *this* chain depends on who asks - also when an
+		// earlier answer for another location is still cached on the transaction
+		{
+			locs := []common.Location{p.loc, {(p.loc[0] + 1) % 3, p.loc[1]}, {p.loc[0], (p.loc[1] + 1) % 3}, p.loc}
+			for i := len(locs) - 1; i > 0; i-- {
+				j := rc.Intn(i + 1)
+				locs[i], locs[j] = locs[j], locs[i]
+			}
+			for _, l := range locs {
+				a, err := types.Sender(types.NewSigner(p.chainID, l), tx)
+				if err != nil {
+					continue
+				}
+				_, ierr := a.InternalAddress()
+				home := l.Equal(p.loc)
+				switch {
+				case a.Bytes20() != from.Bytes20():
+					o.Violate("c03-sender-differs-by-location", fmt.Sprintf("asked for location %v the sender is %x, for its home location %x", l, a.Bytes(), from.Bytes()))
+				case home && ierr != nil:
+					o.Violate("c16-sender-classified-for-another-location", fmt.Sprintf("a node of %v is told that sender %x of its own chain is external (%v)", l, a.Bytes(), ierr))
+				case !home && ierr == nil:
+					o.Violate("c16-sender-classified-for-another-location", fmt.Sprintf("a node of %v is told that sender %x (an account of %v) is one of its own accounts", l, a.Bytes(), p.loc))
+				}
+			}
+			o.Count("sender-asked-from-four-locations")
+		}
 		vv, rr, ss := tx.GetEcdsaSignatureValues()
 		recd := func(t *types.Transaction, s types.Signer) string {
 			// what plain ECDSA recovery yields for this tx's own signing hash (opaque to the model)
@@ -191,7 +218,10 @@ func runSign(seed uint64, n int, outDir string, replay string) {
 		// signature-component mutations incl. high-S twin, zero, out of range
 		highS := new(big.Int).Sub(secpN, ss)
 		for _, sv := range []struct{ v, r, s *big.Int }{{vv, rr, highS}, {new(big.Int).Xor(vv, big.NewInt(1)), rr, highS}, {vv, big.NewInt(0), ss}, {vv, rr, big.NewInt(0)},
-			{vv, secpN, ss}, {big.NewInt(int64(2 + rc.Intn(300))), rr, ss}, {vv, sgBoundary(rc), sgBoundary(rc)}} {
+			{vv, secpN, ss}, {big.NewInt(int64(2 + rc.Intn(300))), rr, ss}, {vv, sgBoundary(rc), sgBoundary(rc)},
+			// recovery ids that are the genuine one modulo 2^8 / 2^32 / 2^56, and one beyond 64 bits
+			{new(big.Int).Add(vv, big.NewInt(256)), rr, ss}, {new(big.Int).Add(vv, big.NewInt(int64(256*(1+rc.Intn(250))))), rr, ss},
+			{new(big.Int).Add(vv, new(big.Int).Lsh(big.NewInt(1), uint(32+8*rc.Intn(4)))), rr, ss}, {new(big.Int).Add(vv, new(big.Int).Lsh(big.NewInt(1), 64)), rr, ss}} {
 			qq := &types.QuaiTx{ChainID: tx.ChainId(), Nonce: tx.Nonce(), GasPrice: tx.GasPrice(), Gas: tx.Gas(), To: tx.To(), Value: tx.Value(), Data: tx.Data(), AccessList: tx.AccessList(), V: sv.v, R: sv.r, S: sv.s}
 			mtx := types.NewTx(qq)
 			a, err := types.Sender(signer, mtx)
@@ -199,7 +229,7 @@ func runSign(seed uint64, n int, outDir string, replay string) {
 			ans("ok")
 			o.Op("sender %s %s %s %s %s %s", p.chainID, p.chainID, sv.v, sv.r, sv.s, recd(mtx, signer))
 			ans(verdictOf(a, err))
-			if err == nil && a.Bytes20() == orig.Bytes20() && (sv.s.Cmp(ss) != 0 || sv.r.Cmp(rr) != 0) {
+			if err == nil && a.Bytes20() == orig.Bytes20() && (sv.s.Cmp(ss) != 0 || sv.r.Cmp(rr) != 0 || sv.v.Cmp(vv) != 0) {
 				o.Violate("c03-malleable-signature", fmt.Sprintf("a different signature (%s,%s,%s) is attributed to the same sender", sv.v, sv.r, sv.s))
 			}
 		}
